@@ -36,6 +36,8 @@ EXPRS = ["a", "a.b", "a[0]", "@", "a[*].b", "length(a)", "a ||", "abs(a)", "nope
 INPUTS = ['{"a": 1}', '{"a": {"b": [1, 2, {"c": null}]}}', '{"a": [{"b": 2}, {"b": 1}]}', '{"a": "line1\\nline2\\t\\"q\\"\\\\"}', '{"a": ["x", "y"]}',
           '{"a": -3.5e10, "é": "ü"}', '[1, 2, 3]', 'null', '"s"', '{"a": [1e308, 1e308]}', '{"a": 18446744073709551615}', '{"a": []}', '{"a": {}}',
           '{"a": 1', '', 'not json', '[1, 2,]', '{"a": "\\ud800"}', ' \n {"a" : "x"} \n', '{"a":{"b":"\\u00e9\\ud83d\\ude00"}}', '{"a": 0.1, "b": 1E+2}']
+# one complete document followed by more text: rejected by the library's reader (only whitespace may follow)
+TRAILING = ['{"a": 1} garbage', '1 2', '[1] [2]', '{"a": 1}\n{"a": 2}\n', '{"a": 1}]', '{"a": "x"} \n\t ', '"s" "t"', 'null null', '{"a": 1},']
 FLAGS = ["-", "u", "a", "ua"]
 
 
@@ -54,6 +56,10 @@ class P(framework.Prop):
         combos = [(f, e, i) for f in FLAGS for e in EXPRS for i in INPUTS]
         for f, e, i in rng.sample(combos, min(N, len(combos))):
             out.append("cli %s %s %s" % (f, wire.s(e), wire.s(i)))
+        for f in FLAGS:
+            for i in TRAILING:
+                for e in ("a", "@", "a ||"):
+                    out.append("cli %s %s %s" % (f, wire.s(e), wire.s(i)))
         for f in FLAGS:
             for e in EXPRS[:12]:
                 out.append("cli %s %s _" % (f, wire.s(e)))          # unreadable input
